@@ -10,6 +10,10 @@ open Lean
 
 def fileRefs (l : List Nat) : List Ref := l.map fun i => ⟨i, []⟩
 
+/-- `Descriptor()` read by content is (still) the request's declaration: the harness answers
+    `[⟨0,[1]⟩]` when `proto.Equal` to a pristine copy holds, `[⟨0,[0]⟩]` otherwise -/
+def descIntact : List Ref := [⟨0, [1]⟩]
+
 /-- the result of accessor `acc` on entity `r` of a freshly built (bidirectional) AST:
     declaration-ordered listings as sequences, derived relations sorted -/
 def freshResultQ (q : Ref → QKind → List Ref) (fdpt : Nat → List Nat)
@@ -29,10 +33,13 @@ def freshResultQ (q : Ref → QKind → List Ref) (fdpt : Nat → List Nat)
      | "services" => childRefs r.file [] 6 f.services.length
      | "exts" => childRefs r.file [] 7 f.exts.length
      | "walk" => (walkModel [] w r false).trace.map (·.1)
+     | "syntax" => [⟨0, [if f.syn == "proto3" then 3 else if f.syn == "" || f.syn == "proto2" then 2 else 0]⟩]
+     | "desc" => descIntact
      | _ => [])
   | [5, i], some f =>
     (match f.enums[i]?, acc with
      | some e, "values" => childRefs r.file r.path 2 e.values.length
+     | some _, "desc" => descIntact
      | some _, "edpts" => sortRefs (q r .enumDependents)
      | some _, "walk" => (walkModel [] w r false).trace.map (·.1)
      | _, _ => [])
@@ -41,6 +48,7 @@ def freshResultQ (q : Ref → QKind → List Ref) (fdpt : Nat → List Nat)
      | some s, "methods" => childRefs r.file r.path 2 s.methods.length
      | some s, "imports" => fileRefs (sortNat ((List.range s.methods.length).map fun mi => methodImports g ⟨r.file, [6, i, 2, mi]⟩).flatten)
      | some _, "walk" => (walkModel [] w r false).trace.map (·.1)
+     | some _, "desc" => descIntact
      | _, _ => [])
   | _, some f =>
     match w.msgAt r with
@@ -63,6 +71,7 @@ def freshResultQ (q : Ref → QKind → List Ref) (fdpt : Nat → List Nat)
        | "deps" => sortRefs (q r .dependencies)
        | "dpts" => sortRefs (q r .dependents)
        | "walk" => if h.mapEntry then [] else (walkModel [] w r false).trace.map (·.1)
+       | "desc" => descIntact
        | _ => [])
     | none =>
       -- nested enum
@@ -72,6 +81,7 @@ def freshResultQ (q : Ref → QKind → List Ref) (fdpt : Nat → List Nat)
          | some (h, _) => (match h.enums[i]?, acc with
            | some e, "values" => childRefs r.file r.path 2 e.values.length
            | some _, "edpts" => sortRefs (q r .enumDependents)
+           | some _, "desc" => descIntact
            | _, _ => [])
          | none => [])
       | _ => []
